@@ -111,7 +111,14 @@ type c16Session struct {
 	// thread used, re-loaded with this session's input (as callers do with a
 	// strings.Reader or bytes.Reader they Reset).
 	SameReader bool `json:"same_reader_object"`
-	reader     *simReader
+	// Plain: read from a strings.Reader (which is also an io.ByteReader,
+	// io.RuneReader, io.WriterTo, ...) instead of the simulated reader: callers
+	// mix reader kinds across Resets.
+	Plain bool `json:"plain_strings_reader"`
+	// RestSplit >= 0 (mode rest): read that many bytes from the reader Rest
+	// returned, then call Rest again and drain that one.
+	RestSplit int `json:"rest_called_again_after_bytes"`
+	reader    *simReader
 	// observations (written by the executing thread, read after the join)
 	Tokens    []string `json:"tokens"`
 	Completes []bool   `json:"complete_after_each"`
@@ -153,15 +160,19 @@ func execSession(sc *shell.Scanner, prev *simReader, s *c16Session) (*shell.Scan
 		return sc, prev
 	}
 	rd := s.reader
-	if s.SameReader && prev != nil {
+	if s.SameReader && prev != nil && !s.Plain {
 		prev.reload(s.reader)
 		rd = prev
 		s.reader = prev
 	}
+	var src io.Reader = rd
+	if s.Plain {
+		src = strings.NewReader(s.Input)
+	}
 	if sc == nil || s.Fresh {
-		sc = shell.NewScanner(rd)
+		sc = shell.NewScanner(src)
 	} else {
-		sc.Reset(rd)
+		sc.Reset(src)
 	}
 	next := func() bool {
 		if !sc.Next() {
@@ -218,8 +229,16 @@ func execSession(sc *shell.Scanner, prev *simReader, s *c16Session) (*shell.Scan
 		}
 		r := sc.Rest()
 		s.restTaken = true
+		var head []byte
+		if s.RestSplit >= 0 {
+			// Take some bytes, then ask for the remainder again.
+			head = make([]byte, s.RestSplit)
+			n, _ := io.ReadFull(r, head)
+			head = head[:n]
+			r = sc.Rest()
+		}
 		b, err := io.ReadAll(r)
-		s.Rest = string(b)
+		s.Rest = string(head) + string(b)
 		if err != nil {
 			s.RestErr = err.Error()
 		}
@@ -293,6 +312,9 @@ func checkSession(s *c16Session, st *Stats) *Violation {
 			return &Violation{"rest-mismatch", fmt.Sprintf("%s: draining Rest failed with %q on a stream that has no error", desc, s.RestErr)}
 		}
 		st.Inc(fmt.Sprintf("probe:rest_after_%s", bucket(k, len(want))), 1)
+		if s.RestSplit >= 0 {
+			st.Inc("probe:rest_called_twice", 1)
+		}
 		return nil
 	}
 
@@ -441,7 +463,16 @@ func drawSession(ch chooser.Chooser, withErrors bool, st *Stats) *c16Session {
 	s.K = ch.Draw(ntok+2, "k")
 	s.Fresh = ch.Draw(3, "fresh") == 0
 	s.SameReader = ch.Draw(2, "samereader") == 1
-	if s.Mode != smPool {
+	s.Plain = ch.Draw(5, "plain") == 4
+	s.RestSplit = -1
+	if s.Mode == smRest && ch.Draw(3, "resttwice") == 2 {
+		s.RestSplit = ch.Draw(len(s.Input)+1, "restsplit")
+	}
+	if s.Mode != smPool && s.Plain {
+		// an ordinary in-memory reader: whole input, clean EOF
+		s.Faults = readerFaults{ErrAt: -1, EarlyEOF: -1}
+		s.reader = newSimReader(ch, s.Input, s.Faults, st)
+	} else if s.Mode != smPool {
 		s.Faults = drawReaderFaults(ch, len(s.Input), withErrors)
 		if len(s.Input) > 256 && s.Faults.Frag == 1 {
 			s.Faults.Frag = 2 // thousands of one-byte reads buy nothing
@@ -538,6 +569,9 @@ func runC16(withErrors bool) func(ch chooser.Chooser, st *Stats) *Outcome {
 		}
 		for t, ss := range sessions {
 			for i, s := range ss {
+				if i > 0 && ss[i-1].Plain && ss[i-1].Mode != smPool && !s.Plain && s.Mode != smPool && !s.Fresh {
+					st.Inc("probe:plain_reader_then_simulated_reader", 1)
+				}
 				if v := checkSession(s, st); v != nil {
 					v.Detail = fmt.Sprintf("thread %d session %d: %s", t, i, v.Detail)
 					out.Violation = v
@@ -622,7 +656,7 @@ func init() {
 			"a run is non-trivial if some reader needed more than one Read or a pooled object was re-used; distinct = distinct fingerprints of (event log, tokens, rests)",
 		Real:           real,
 		Simulated:      []string{"the io.Reader handed to scanners", "sync.Pool object choice and retention", "goroutine scheduling at every Read and pool operation"},
-		RequiredProbes: append(c16Pairs(), "fault:short_read", "fault:empty_read", "fault:data_with_eof", "probe:pool_returned_used_object", "probe:rest_after_0_tokens", "probe:rest_after_some_tokens", "probe:rest_after_all_tokens", "probe:incomplete_final_token", "probe:context_switch_between_scanner_reads", "shell_oracle:evaluations", "probe:scanner_abandoned_mid_input", "probe:reader_object_reused"),
+		RequiredProbes: append(c16Pairs(), "fault:short_read", "fault:empty_read", "fault:data_with_eof", "probe:pool_returned_used_object", "probe:rest_after_0_tokens", "probe:rest_after_some_tokens", "probe:rest_after_all_tokens", "probe:incomplete_final_token", "probe:context_switch_between_scanner_reads", "shell_oracle:evaluations", "probe:scanner_abandoned_mid_input", "probe:reader_object_reused", "probe:rest_called_twice", "probe:plain_reader_then_simulated_reader"),
 		Finish:         finishShell(&c16Shell),
 	})
 	register(&Property{
